@@ -171,8 +171,18 @@ def run(args, seed, t_start):
                 undecided.append((name, res[bad_q].get('reason', '')))
     scan_records = []
     for name, problems, doc in scans:
+        # a scan may report that it cannot decide (e.g. a new method no contract speaks about): 'UNDECIDED: ...' entries
+        und = [x for x in problems if isinstance(x, str) and x.startswith('UNDECIDED:')]
+        for pr in und:
+            r.undecided.append(('frame/%s' % name, pr[len('UNDECIDED:'):].strip()))
+        problems = [x for x in problems if not (isinstance(x, str) and x.startswith('UNDECIDED:'))]
         ok = not problems
         full = 'frame/%s' % name
+        if und and ok:
+            per_oblig.append({'name': full, 'queries': 1, 'seconds': 0.0, 'backend': 'ast-frame', 'result': 'unknown', 'expr': doc, 'kind': 'frame-scan',
+                              'problems': und})
+            by_name[full] = []
+            continue
         per_oblig.append({'name': full, 'queries': 1, 'seconds': 0.0, 'backend': 'ast-frame', 'result': 'unsat' if ok else 'sat',
                           'expr': doc, 'kind': 'frame-scan', 'problems': problems})
         backends['ast-frame'] += 1
@@ -277,14 +287,21 @@ def c16_second_tier(scans, r, tier, seed, jobs):
             continue
         n_added = 0
         skeletons = {'sync': {}, 'async': {}}
+        skeleton_pcs = {}
         for key in keys:
             c = dsl.CONTRACTS[key]
             for p in sorted(c.props):
                 rr = driver.Run(p, tier, seed, jobs=jobs, only=['=' + key])
-                rr.generate()
-                for ckey, twin, variant, traces in rr.traces:
+                os.environ['PYVC_SKELETON_PC'] = '1'
+                try:
+                    rr.generate()
+                finally:
+                    os.environ.pop('PYVC_SKELETON_PC', None)
+                for ckey, twin, variant, traces, pcs in rr.traces:
                     if '__twin__' not in variant:
                         skeletons[twin].setdefault((ckey, variant), set()).update(traces)
+                        for k_, q_ in pcs.items():
+                            skeleton_pcs.setdefault((twin, ckey, variant, k_), q_)
                 for o in rr.obligations:
                     o.name = 'C16/%s/shared-contract[%s]/%s' % (pair, p, o.name)
                     r.obligations.append(o)
@@ -299,14 +316,29 @@ def c16_second_tier(scans, r, tier, seed, jobs):
         # outcome kind, and how the path ends) -- an extra / missing / re-ordered call or a different exit on some path is a difference
         # no shared contract can excuse
         skel_problems = []
+        cand = []
         for kv in sorted(set(skeletons['sync']) | set(skeletons['async'])):
             a, b = skeletons['sync'].get(kv), skeletons['async'].get(kv)
             if a is None or b is None:
                 continue
             for which, only in (('sync', a - b), ('async', b - a)):
-                for ev, end in sorted(only)[:3]:
-                    skel_problems.append('%s%s: only the %s twin has a path calling [%s] and ending in %s'
-                                         % (kv[0], kv[1] if kv[1] != '[]' else '', which, ', '.join('%s:%s' % e for e in ev), end))
+                for sk in sorted(only):
+                    cand.append((which, kv, sk))
+        # a skeleton that only one twin has counts only if its path is really feasible (the path condition is satisfiable): the
+        # generator prunes paths on an abstraction, which may keep an infeasible path in one twin and not in the other
+        qs = [('skel#%d' % i, skeleton_pcs[(which, kv[0], kv[1], sk)], 10000) for i, (which, kv, sk) in enumerate(cand)
+              if (which, kv[0], kv[1], sk) in skeleton_pcs]
+        feas = solve.solve_all(qs, jobs=jobs, sat_first=True) if qs else {}
+        for i, (which, kv, (ev, end)) in enumerate(cand):
+            verdict = feas.get('skel#%d' % i, {}).get('result', 'sat')
+            text = ('%s%s: only the %s twin has a path calling [%s] and ending in %s'
+                    % (kv[0], kv[1] if kv[1] != '[]' else '', which, ', '.join('%s:%s' % e for e in ev), end))
+            if verdict == 'unsat':
+                continue
+            if verdict == 'sat':
+                skel_problems.append(text)
+            else:
+                skel_problems.append('UNDECIDED: ' + text + ' (feasibility of that path not decided)')
         print('C16 note: %s -- %s; decided by the shared contract of the pair (%d obligations over both twins) and by call-skeleton equality (%s)'
               % (pair, differ[0], n_added, 'equal' if not skel_problems else '%d differences' % len(skel_problems)))
         if skel_problems:
